@@ -622,8 +622,8 @@ def all_builders(rng, tier):
             out.append(('F:' + nm + '-leftscal', (s * f).proximal(sig), mkq, sp))
             out.append(('F:' + nm + '-rightscal', (f * s).proximal(sig), (lambda sp=sp, s=s: rnd_el_sqnorm(rng, sp) / s), sp))
     # random arithmetic trees over square-root-free leaves
-    ntree = 40 if tier == 'quick' else 400
-    depth = 3 if tier == 'quick' else 5
+    ntree = 40 if tier == 'quick' else 1000
+    depth = 3 if tier == 'quick' else 6
     for sp in fs[1:3] + fs[4:5] + ps[:2]:
         pool = leaf_builders(rng, sp, sqrt_free=True)
         for i in range(ntree // 5):
@@ -650,7 +650,7 @@ def correspondence(rng, tier):
     import odl
     cs = C.CaseSet('alias', ['C10.Model', 'C10.Corr'], 'check', 'case')
     stats = {'unmodelled': {}, 'nonfinite': 0}
-    nin = 2 if tier == 'quick' else 5
+    nin = 2 if tier == 'quick' else 7
     for nm, P, mk, sp in all_builders(rng, tier):
         try:
             term = reify(P)
